@@ -6,10 +6,16 @@ Open Scope N_scope.
 Theorem C18_coding_comment_shape : forall s name rest, coding_match s = Some (name, rest) ->
   exists pre sep ws post nl,
     s = [cHASHe] ++ pre ++ s2l "coding" ++ [sep] ++ ws ++ name ++ post ++ [nl] ++ rest /\
-    no_lf pre /\ (sep = cCOLONe \/ sep = cEQe) /\ forallb is_space ws = true /\
+    no_lf pre /\ (sep = cCOLONe \/ sep = cEQe) /\ forallb is_blank_e ws = true /\
     name <> [] /\ forallb is_namechar_e name = true /\ no_lf post.
 Proof. exact coding_comment_shape. Qed.
 Print Assumptions C18_coding_comment_shape.
+
+(* "declared by a magic coding comment on its first line": everything the pattern consumes lies before the first line feed *)
+Theorem C18_coding_comment_on_first_line : forall s name rest, coding_match s = Some (name, rest) ->
+  exists line nl, s = line ++ [nl] ++ rest /\ no_lf line.
+Proof. exact coding_comment_on_first_line. Qed.
+Print Assumptions C18_coding_comment_on_first_line.
 
 (* the leading part of the pattern is greedy: of several declarations on the first line the last counts *)
 Theorem C18_last_declaration_on_the_line_counts : forall r name rest, find_last r = Some (name, rest) ->
@@ -89,11 +95,11 @@ Theorem C18_render_is_encode_of_render_unicode : forall enc e errors pieces text
 Proof. exact render_is_encode_of_render_unicode. Qed.
 Print Assumptions C18_render_is_encode_of_render_unicode.
 
-(* non-vacuity: a real first line; the last declaration on the line wins; whitespace may cross the line *)
+(* non-vacuity: a real first line; the last declaration on the line wins; the blanks after the colon do not cross the line *)
 Example C18_nonvacuous :
   coding_match (s2l "# -*- coding: koi8-r -*-" ++ [LF] ++ s2l "hello") = Some (s2l "koi8-r", s2l "hello") /\
   coding_match (s2l "## coding=a coding:b x" ++ [LF] ++ s2l "t") = Some (s2l "b", s2l "t") /\
-  coding_match (s2l "# coding:" ++ [LF] ++ s2l "latin-1 z" ++ [LF] ++ s2l "t") = Some (s2l "latin-1", s2l "t") /\
+  coding_match (s2l "# coding:" ++ [LF] ++ s2l "latin-1 z" ++ [LF] ++ s2l "t") = None /\
   coding_match (s2l "# coding: utf-8") = None /\
   decide (fun b => b) (str_eqb utf8) (IBytes (BOM ++ s2l "# coding: latin-1" ++ [LF])) None = OBomConflict (s2l "latin-1").
 Proof. vm_compute. repeat split. Qed.
